@@ -479,6 +479,12 @@ fn cmd_determinism(args: &[String]) -> i32 {
         if !burn && (da != db || da != dc || c.rep.diverged_at.is_some()) {
             bad += 1;
             eprintln!("NONDETERMINISM prop={prop} run={i}: {da:016x} {db:016x} replay {dc:016x} diverged={:?}", c.rep.diverged_at);
+            if let Some(dir) = arg(args, "--dump") {
+                for (name, r) in [("a", &a), ("b", &b), ("c", &c)] {
+                    let lines: Vec<String> = r.log.iter().map(|e| serde_json::to_string(e).unwrap()).collect();
+                    let _ = std::fs::write(format!("{dir}/{prop}-{i}-{name}.log"), lines.join("\n"));
+                }
+            }
         }
         println!("{prop} {i} {da:016x}");
         i += nshards;
